@@ -21,7 +21,8 @@ EXPLANATION = (
     "source nesting; R4 per-module reset of generator tables (shared with C03.R1); R5 who may construct "
     "Poison::Poisoned (the marker that produces an *empty* error list) -- only the reviewed cascade sites; R6 the "
     "three LLVM verifier calls use AbortProcessAction (trusted-base statement); R7 ARGS-COVERED for the alpha parser's "
-    "consume(): every token constant passed has an expectation string.")
+    "consume(): every token constant passed has an expectation string."
+    " ADDED LATER: R8 re-runs the rules that the reviewed reasons cite (C06.R2/R4, C03.R5, C01.R3); R9 in every resolver arm an early exit on a possibly empty error list comes after the traversal of the children; R10 the status of LLVMLinkModules2 is not discarded; R11 the functions that rewrite types (scoper, typer, resolver) descend into every component of every ValueType variant. R1 entries are an inventory with reviewed reasons, not proofs: entries refuted by reproducers are known findings, the rest are assumptions.")
 
 ENTRIES = [
     "alpha::lexer::lex", "alpha::parser::parse", "alpha::expander::expand", "alpha::expander::expand_one",
